@@ -356,6 +356,12 @@ def c13b(prog, rep):
         rep.check(scalar is not None and acc == {c for c in scalar if c < 128}, R, "AGREE:avx2=generic(ascii)",
                   "AVX2 and scalar routines disagree on ASCII identifier characters: only one of them accepts %s" % sorted(repr(chr(c)) for c in (acc ^ {c for c in (scalar or ()) if c < 128}))[:8],
                   instance={"avx2": "".join(chr(c) for c in sorted(acc)), "polarity": cl["polarity"]})
+    # a bit mask held in movemask's signed result is not widened with sign extension (`mask as u64` copies the bit of byte 31 into all the
+    # upper bits: two masks combined that way hide the second chunk's zeros whenever the first chunk is full)
+    sx = simd.sign_extended_masks(prog)
+    rep.check(not sx, R, "avx2-mask-widened-without-sign-extension", "the AVX2 routine widens a movemask result held in a signed integer directly (%s): the sign bit (byte 31 of the chunk) "
+              "fills the new upper bits, so the bits of a second chunk or-ed in there are lost and the identifier end is reported too late" % (sx[0][2] if sx else ""),
+              where=sx[0][1] if sx else None, instance={"sign_extending_widenings": len(sx)})
     # AVX2 defers to the scalar routine for the tail and on any non-ASCII byte
     tails = avx.calls_to(LX + "find_identifier_end_generic")
     rep.check(len(tails) == 1, R, "avx2-tail=generic", "the AVX2 routine does not finish with find_identifier_end_generic")
